@@ -197,3 +197,24 @@ Definition plain_b (c : pcase) : bool :=
   && is_none (rq_nr (pc_req c))
   && is_ok (build_regmap (pc_cx c)).
 
+(* the wider class: revocable credentials, non-revocation intervals at every level (request, attribute,
+   predicate), timestamps and non-revocation states supplied as rev_ok_legacy demands; still no
+   restrictions and no verifier-side override map *)
+Definition u64_b (z : Z) : bool := (0 <=? z) && (z <=? u64max).
+Definition wf_ivb (i : interval) : bool :=
+  match ifrom i with Some f => u64_b f | None => true end && match ito i with Some t => u64_b t | None => true end.
+Definition wf_optb (o : option interval) : bool := match o with Some i => wf_ivb i | None => true end.
+Definition rev_entry (c : pcase) (p : present) : bool :=
+  cred_honest (pc_cx c) (pc_link c) (pr_cred p) && rev_ok_legacy c p
+  && match pr_ts p with Some t => u64_b t | None => true end
+  && forallb (fun '(r, b) => (b : bool) || match assoc r (rq_attrs (pc_req c)) with
+                                           | Some ai => forallb (fun n => mem (cv n) (keys (fed_legacy (pr_cred p)))) (names_of ai)
+                                           | None => true end) (pr_attrs p)
+  && forallb (fun '(_, (_, e)) => String.eqb (normalize_encoded e) e) (hc_values (pr_cred p)).
+Definition rev_b (c : pcase) : bool :=
+  coverage c
+  && forallb (rev_entry c) (nonempty (pc_sel c))
+  && forallb (fun '(_, ai) => is_none (ai_restr ai) && wf_optb (ai_nr ai) && match ai_names ai with Some ns => nodup_str ns | None => true end) (rq_attrs (pc_req c))
+  && forallb (fun '(_, pi) => is_none (pi_restr pi) && wf_optb (pi_nr pi)) (rq_preds (pc_req c))
+  && is_none (cx_override (pc_cx c))
+  && is_ok (build_regmap (pc_cx c)).
